@@ -30,11 +30,10 @@ Definition MAXof (k : kind) : Z :=
 Definition model (k : kind) (rate h : Z) : option (Z * bool) :=
   match k with KDet => det_sample rate h | KStress => Some (stress_sample rate h) end.
 
-(* rates for which the model is compared with the implementation: the modelled domain minus
-   deterministic rates >= 2^32 (the uint32 truncation there is C28's subject) *)
+(* rates for which the model is compared with the implementation: every Go int / uint64 *)
 Definition compared (k : kind) (rate : Z) : bool :=
   match k with
-  | KDet => rate <? 4294967296
+  | KDet => (-9223372036854775808 <=? rate) && (rate <? 9223372036854775808)
   | KStress => (0 <=? rate) && (rate <? 18446744073709551616)
   end.
 
@@ -54,7 +53,7 @@ Definition hd_rate (o : obs) : Z := hd 0 (o_rates o).
 Definition obs_agrees (k : kind) (h rate : Z) (o : obs) : bool :=
   if negb (compared k rate) then true else
   match model k rate h with
-  | None => true   (* model: Start divides by zero; outside C10's range, any behaviour accepted *)
+  | None => o_crash o   (* the model has no panic path left; kept for a future one *)
   | Some (r, kp) => negb (o_crash o) && negb (length (o_keeps o) =? 0)%nat &&
                     all_eq_z r (o_rates o) && all_eq_b kp (o_keeps o)
   end.
@@ -86,9 +85,9 @@ Definition mon_le1 (rate : Z) (o : obs) : bool :=
 Definition mon_rate (k : kind) (rate : Z) (o : obs) : bool :=
   if in_range k rate && (1 <? rate) && negb (o_crash o) then all_eq_z rate (o_rates o) else true.
 
-(* 16: no answer for a rate in the property's range *)
+(* 16: no answer (the sampler panicked or returned an error) *)
 Definition mon_answer (k : kind) (rate : Z) (o : obs) : bool :=
-  if in_range k rate then negb (o_crash o) && negb (length (o_keeps o) =? 0)%nat else true.
+  negb (o_crash o) && negb (length (o_keeps o) =? 0)%nat.
 
 (* 13: the threshold sits at 1/rate of the hash range (one unit of slack on either side) *)
 Definition mon_position (k : kind) (h rate : Z) (o : obs) : bool :=
